@@ -519,7 +519,9 @@ fn cmd_run(a: &Args) -> i32 {
                 let mut layouts: HashSet<u64> = HashSet::new();
                 layouts.insert(res.layout_digest);
                 let mut runs = 1u64;
-                if !skipped && res.violations.is_empty() && res.inconclusive.is_none() {
+                // rules of other properties may have fired softly in the reference run (reported by
+                // their own checks); the layouts are still compared
+                if !skipped && !res.violations.iter().any(|v| v.hard) && res.inconclusive.is_none() {
                     for j in 1..k {
                         let mut cj = cfg0.clone();
                         cj.teardown = false; // the recorded sequence already contains the teardown
@@ -561,9 +563,7 @@ fn cmd_run(a: &Args) -> i32 {
                             res.log = rj.log.clone();
                             break;
                         }
-                        for v in rj.violations {
-                            res.violations.push(v);
-                        }
+                        let _ = rj.violations;
                     }
                 }
                 AGG.with(|ag| {
